@@ -633,6 +633,21 @@ class UnionProxy:
     def __repr__(self) -> str:
         return repr(self.__target__)
 
+    def __eq__(self, other: object) -> bool:
+        # A proxy stands in for its structure: compare by value, not by the identity of the proxy object
+        if isinstance(other, UnionProxy):
+            other = other.__target__
+        return self.__target__ == other
+
+    def __ne__(self, other: object) -> bool:
+        return not self.__eq__(other)
+
+    def __hash__(self) -> int:
+        return hash(self.__target__)
+
+    def __bool__(self) -> bool:
+        return bool(self.__target__)
+
     def __getattr__(self, attr: str) -> Any:
         return getattr(self.__target__, attr)
 
